@@ -50,7 +50,58 @@ pub struct Honest {
 /// byte-lexicographic sorted rank of the running hash (the chain's node order) is the wanted
 /// position at every level.
 pub fn build(p: &HonestParams) -> Honest {
+    build_ext(p, None, None, p.seed)
+}
+
+/// Leaf hash of the deposit the parameters describe (needed to place it in a shared tree).
+pub fn leaf_hash_of(p: &HonestParams) -> [u64; 4] {
+    let secret = h(&[0xC05, p.seed, 1]);
+    let account = account_of(&secret);
+    let mut pre = account.to_vec();
+    pre.extend_from_slice(&[p.tc >> 32, p.tc & 0xFFFF_FFFF, p.asset as u64, p.input as u64]);
+    h(&pre)
+}
+
+/// Sorted-sibling path of one leaf inside a shared tree: (sorted siblings, positions, root).
+pub type Path = (Vec<[[u8; 32]; 3]>, Vec<u8>, [u64; 4]);
+
+/// A depth-2 4-ary tree over up to 16 leaf hashes (the rest filled), children hashed in
+/// byte-sorted order like the chain does. Returns one path per supplied leaf.
+pub fn shared_tree(block_seed: u64, leaf_hashes: &[[u64; 4]]) -> Vec<Path> {
+    assert!(leaf_hashes.len() <= 16);
+    let mut leaves: Vec<[u8; 32]> = (0..16u64).map(|i| limbs_to_bytes(h(&[0xF111, block_seed, i]))).collect();
+    for (i, lh) in leaf_hashes.iter().enumerate() {
+        leaves[i] = limbs_to_bytes(*lh);
+    }
+    let node = |ch: &[[u8; 32]]| -> [u8; 32] {
+        let mut c = ch.to_vec();
+        c.sort();
+        limbs_to_bytes(h(&c.iter().flat_map(bytes_to_limbs).collect::<Vec<_>>()))
+    };
+    let groups: Vec<[u8; 32]> = (0..4).map(|g| node(&leaves[g * 4..g * 4 + 4])).collect();
+    let root = bytes_to_limbs(&node(&groups));
+    let path_level = |all: &[[u8; 32]], me: [u8; 32]| -> ([[u8; 32]; 3], u8) {
+        let mut c = all.to_vec();
+        c.sort();
+        let pos = c.iter().position(|x| *x == me).unwrap();
+        c.remove(pos);
+        ([c[0], c[1], c[2]], pos as u8)
+    };
+    (0..leaf_hashes.len())
+        .map(|i| {
+            let g = i / 4;
+            let (s0, p0) = path_level(&leaves[g * 4..g * 4 + 4], leaves[i]);
+            let (s1, p1) = path_level(&groups, groups[g]);
+            (vec![s0, s1], vec![p0, p1], root)
+        })
+        .collect()
+}
+
+/// `build` with an optional externally supplied tree path (shared block), explicit exit
+/// accounts, and a header seed shared by all leaves of one block.
+pub fn build_ext(p: &HonestParams, path: Option<&Path>, exits: Option<([u64; 4], [u64; 4])>, header_seed: u64) -> Honest {
     let g = |k: u64| -> [u64; 4] { h(&[0xC05, p.seed, k]) };
+    let hg = |k: u64| -> [u64; 4] { h(&[0xC05, header_seed, k]) };
     let secret = g(1);
     let account = account_of(&secret);
     let tc = [p.tc >> 32, p.tc & 0xFFFF_FFFF]; // high limb first, as the chain encodes u64
@@ -68,15 +119,16 @@ pub fn build(p: &HonestParams) -> Honest {
     a.v[TCL + 1] = tc[1];
     a.set4(ACC, account);
     a.set4(TO, account);
-    a.set4(EXIT1, g(2));
-    a.set4(EXIT2, g(3));
+    a.set4(EXIT1, exits.map(|e| e.0).unwrap_or(g(2)));
+    a.set4(EXIT2, exits.map(|e| e.1).unwrap_or(g(3)));
     a.v[BN] = p.block_number as u64;
-    a.v[DEPTH] = p.depth as u64;
+    let depth = path.map(|x| x.0.len()).unwrap_or(p.depth);
+    a.v[DEPTH] = depth as u64;
     let mut cur = a.leaf_hash();
     let leaf_hash = limbs_to_bytes(cur);
     let mut unsorted = Vec::new();
     let mut sorted_sibs: Vec<[[u8; 32]; 3]> = Vec::new();
-    for l in 0..p.depth {
+    for l in 0..(if path.is_some() { 0 } else { p.depth }) {
         let want = p.positions[l] as usize;
         // construct `want` siblings below the running hash and 3-want above it (byte order)
         let curb = limbs_to_bytes(cur);
@@ -121,14 +173,27 @@ pub fn build(p: &HonestParams) -> Honest {
         let pre: Vec<u64> = all.iter().flat_map(|b| bytes_to_limbs(b)).collect();
         cur = h(&pre);
     }
+    let mut positions_used: Vec<u8> = p.positions.iter().take(depth).cloned().collect();
+    if let Some((sibs, pos, root)) = path {
+        for l in 0..depth {
+            a.v[POS + l] = pos[l] as u64;
+            for s in 0..3 {
+                a.set4(SIB + (l * 3 + s) * 4, bytes_to_limbs(&sibs[l][s]));
+            }
+        }
+        sorted_sibs = sibs.clone();
+        positions_used = pos.clone();
+        cur = a.fold();
+        assert_eq!(cur, *root, "shared tree path must fold to the shared root");
+    }
     a.set4(ROOT, cur);
     a.set4(ZKROOT, cur);
-    a.set4(PARENT, g(4));
-    a.set4(STATE, g(5));
-    a.set4(EXTR, g(6));
+    a.set4(PARENT, hg(4));
+    a.set4(STATE, hg(5));
+    a.set4(EXTR, hg(6));
     let mut digest = [0u8; 110];
     for (i, b) in digest.iter_mut().enumerate() {
-        *b = (g(7 + (i / 32) as u64)[(i / 8) % 4] >> ((i % 8) * 8)) as u8;
+        *b = (hg(7 + (i / 32) as u64)[(i / 8) % 4] >> ((i % 8) * 8)) as u8;
     }
     let dfelts: Vec<F> = zk_circuits_common::utils::bytes_to_felts(&digest).unwrap();
     assert_eq!(dfelts.len(), 28);
@@ -163,7 +228,7 @@ pub fn build(p: &HonestParams) -> Honest {
             input_amount: p.input,
             zk_tree_root: limbs_to_bytes(cur),
             zk_merkle_siblings: sorted_sibs,
-            zk_merkle_positions: p.positions[..p.depth].to_vec(),
+            zk_merkle_positions: positions_used,
         },
     };
     Honest { inputs, a, unsorted_siblings: unsorted, leaf_hash }
